@@ -138,7 +138,7 @@ func (m *MTU) marshal() ([]byte, error) {
 
 func (m *MTU) unmarshal(b []byte) error {
 	// t := b[0]
-	l := int(b[1]*8) - 2 // Exclude type and length fields from value's length.
+	l := int(b[1])*8 - 2 // Exclude type and length fields from value's length.
 	if l != 6 {
 		return fmt.Errorf("ndp: unexpected mtu option length: %d", l)
 	}
@@ -636,7 +636,7 @@ func (r *RawOption) unmarshal(b []byte) error {
 	r.Type = b[0]
 	r.Length = b[1]
 	// Exclude type and length fields from value's length.
-	l := int(r.Length*8) - 2
+	l := int(r.Length)*8 - 2
 
 	// Enforce a valid length value that matches the expected one.
 	if lb := len(b[2:]); l != lb {
